@@ -91,14 +91,61 @@ def run_block(stmts, env: dict | None = None) -> dict:
             for t in s.targets:
                 if isinstance(t, ast.Name):
                     env[t.id] = value
-                elif isinstance(t, ast.Tuple) and isinstance(s.value, ast.Tuple) and len(t.elts) == len(s.value.elts):
+                elif isinstance(t, ast.Tuple) and isinstance(s.value, ast.Tuple) and len(t.elts) == len(s.value.elts) \
+                        and not any(isinstance(x, ast.Starred) for x in [*t.elts, *s.value.elts]):
                     vals = [resolved(v, env) for v in s.value.elts]
                     for a, v in zip(t.elts, vals):
                         if isinstance(a, ast.Name):
                             env[a.id] = v
+                        else:
+                            for nm in _assigned_names(a):
+                                env.pop(nm, None)
+                elif isinstance(t, ast.Tuple):
+                    _unpack(t, value, env)
+                else:
+                    for nm in _assigned_names(t):
+                        env.pop(nm, None)
         elif isinstance(s, ast.AnnAssign) and isinstance(s.target, ast.Name) and s.value is not None:
             env[s.target.id] = resolved(s.value, env)
     return env
+
+
+def _sub(value, lo=None, hi=None, idx=None):
+    """value[idx] or value[lo:hi] with constant bounds, folding a constant slice underneath:
+    X[:n][k] -> X[k], X[a:][k] -> X[a+k], X[a:][b:] -> X[a+b:]."""
+    c = lambda v: ast.Constant(value=v)
+    if isinstance(value, ast.Subscript) and isinstance(value.slice, ast.Slice) and value.slice.step is None:
+        sl = value.slice
+        a = 0 if sl.lower is None else (sl.lower.value if isinstance(sl.lower, ast.Constant) and isinstance(sl.lower.value, int) else None)
+        b = None if sl.upper is None else (sl.upper.value if isinstance(sl.upper, ast.Constant) and isinstance(sl.upper.value, int) else "?")
+        if a is not None and a >= 0 and b != "?" and (b is None or b >= 0):
+            if idx is not None and idx >= 0 and (b is None or a + idx < b):
+                return ast.Subscript(value=value.value, slice=c(a + idx), ctx=ast.Load())
+            if idx is None and hi is None and lo is not None and lo >= 0 and b is None:
+                return ast.Subscript(value=value.value, slice=ast.Slice(lower=c(a + lo), upper=None, step=None), ctx=ast.Load())
+    if idx is not None:
+        return ast.Subscript(value=value, slice=c(idx), ctx=ast.Load())
+    return ast.Subscript(value=value, slice=ast.Slice(lower=None if lo is None else c(lo), upper=None if hi is None else c(hi), step=None),
+                         ctx=ast.Load())
+
+
+def _unpack(target: ast.Tuple, value: ast.AST, env: dict):
+    """a, b, *c = V  ->  a: V[0], b: V[1], c: V[2:]   (V resolved; names after a star count from the end)."""
+    elts = target.elts
+    star = [i for i, e in enumerate(elts) if isinstance(e, ast.Starred)]
+    for i, e in enumerate(elts):
+        tgt = e.value if isinstance(e, ast.Starred) else e
+        if not isinstance(tgt, ast.Name):
+            for nm in _assigned_names(tgt):
+                env.pop(nm, None)
+            continue
+        if not star or i < star[0]:
+            env[tgt.id] = _sub(value, idx=i)
+        elif i == star[0]:
+            after = len(elts) - i - 1
+            env[tgt.id] = _sub(value, lo=i, hi=(-after if after else None))
+        else:
+            env[tgt.id] = _sub(value, idx=i - len(elts))
 
 
 def _assigned_names(stmt) -> set:
@@ -111,7 +158,7 @@ def _assigned_names(stmt) -> set:
     return out
 
 
-def env_at(node: ast.AST, func: ast.AST, keep_params: bool = True) -> dict:
+def env_at(node: ast.AST, func: ast.AST, keep_params: bool = True, loop_elems: bool = False) -> dict:
     """Resolution environment that holds just before ``node`` executes inside ``func``:
     straight-line assignments on the path from the function entry are applied in order; names
     assigned inside preceding compound statements (if / for / while / with / try) are dropped
@@ -135,6 +182,22 @@ def env_at(node: ast.AST, func: ast.AST, keep_params: bool = True) -> dict:
         if a.kwarg:
             params.add(a.kwarg.arg)
     env: dict = {}
+    # loop variables of enclosing `for` statements become canonical placeholders: __elem(<iterable>)
+    loops = []
+    p = getattr(node, "_parent", None)
+    while p is not None and p is not func:
+        if isinstance(p, ast.For):
+            loops.append(p)
+        p = getattr(p, "_parent", None)
+    loop_bind = {}
+    for lp in reversed(loops):
+        it = lp.iter
+        if isinstance(lp.target, ast.Name):
+            loop_bind[lp.target.id] = ("elem", it, None)
+        elif isinstance(lp.target, ast.Tuple):
+            for k, t in enumerate(lp.target.elts):
+                if isinstance(t, ast.Name):
+                    loop_bind[t.id] = ("elem", it, k)
     for stmts in reversed(chain):
         for s in stmts:
             if isinstance(s, (ast.If, ast.For, ast.While, ast.With, ast.Try, ast.Match)):
@@ -152,4 +215,10 @@ def env_at(node: ast.AST, func: ast.AST, keep_params: bool = True) -> dict:
                     env.pop(nm)
             if isinstance(s, ast.AugAssign) and isinstance(s.target, ast.Name):
                 env.pop(s.target.id, None)
+    if loop_elems:
+        for name, (_k, it, pos) in loop_bind.items():
+            if name in env:
+                continue
+            call = ast.Call(func=ast.Name(id="__elem", ctx=ast.Load()), args=[resolved(it, env)], keywords=[])
+            env[name] = call if pos is None else ast.Subscript(value=call, slice=ast.Constant(value=pos), ctx=ast.Load())
     return env
